@@ -1,12 +1,17 @@
 """C01: set-similarity joins return every qualifying pair."""
-from props import joinprops
+from props.base import Part, run_parts, replay  # noqa: F401
 
 MEASURES = ['JACCARD', 'COSINE', 'DICE', 'OVERLAP_COEFFICIENT', 'OVERLAP']
-RULE = ('whole *_join_py calls on generated DataFrames (random + boundary stream: a pair sitting on '
-        'the threshold with its common tokens ranked last); non-trivial = both tables have a present '
-        'row, at least one pair returned and at least one pair not returned; the model (Model/Api.v) '
-        'and complete_spec (Spec/JoinSpec.v) are evaluated inside Coq on the observed rows')
+RULE = ('whole *_join_py calls on generated DataFrames (random + boundary stream: a pair sitting on the '
+        'threshold with its common tokens ranked last); non-trivial = both tables have a present row, at '
+        'least one pair returned and at least one not; Model/Api.v and complete_spec (Spec/JoinSpec.v) are '
+        'evaluated inside Coq on the observed rows; the generated formulas are compared with filter_utils')
 
 
 def run(ctx):
-    return joinprops.run_joins(ctx, MEASURES, {'complete_spec'}, 300, 6000, RULE)
+    q = ctx['tier'] == 'quick'
+    s = ctx['seed']
+    return run_parts(ctx, [
+        Part('joins', 'corr_joins', 'run', [s, 300 if q else 6000, MEASURES], specs={'complete_spec'}),
+        Part('formulas', 'corr_formulas', 'run_std', [s, 600 if q else 6000]),
+    ], RULE)
